@@ -9,14 +9,22 @@ using namespace opensmt;
 #define NBYTES 6
 #endif
 #define MAXF (NBYTES / 2)          // a frame has at least the two bytes "()"
+#ifdef GROW
+#define LINECAP 32                 // the line buffer is doubled once (16 -> 32)
+#else
+#define LINECAP 16
+#endif
 
 // ---------------------------------------------------------------- symbolic environment
 static unsigned char input[NBYTES + 1];
 static int in_len;
 static int in_pos;
+static bool eof_seen;
 static uint32_t cut_mask;          // bit p set: a read() call started at input offset p (0 < p < in_len)
 static bool parse_fail[MAXF + 1];  // verdict of the parser on the k-th frame (arbitrary, the same for every chunking)
 static int exit_at;                // the k-th frame is an (exit) command; MAXF = no exit
+enum Policy { ANY, BYTEWISE, ONESHOT };
+static Policy policy;              // how read() cuts the input: arbitrarily, one byte per call, everything in one call
 
 struct Log {
     unsigned char fr[MAXF + 1][NBYTES + 1];
@@ -24,6 +32,7 @@ struct Log {
     int n;          // frames handed to the parser (while alive)
     bool err;       // notify_formatted(true, ..) seen (while alive)
     bool dead;      // (exit) executed or "unbalanced parentheses" reported: the reader stops, later noise is not compared
+    bool tail_parsed;   // at EOF the reader handed the unframed rest of its line buffer to the parser
 };
 static Log logs[2];
 static Log * cur;
@@ -33,23 +42,26 @@ enum Mode { LOG, CMPLOG, CMPREF };
 static Mode mode;
 struct Ref {
     int n; int s[MAXF + 1], e[MAXF + 1];
+    int tail_s;             // first byte after the last complete frame
     bool unbalanced;        // a ')' at depth 0
     bool tail_token;        // some token (or an unterminated literal) after the last complete frame
-    bool comment_paren, string_paren, qsym_paren, string_semicolon;
+    bool string_backslash;  // a backslash inside a string literal (the lexer reads \" and \\ as escapes)
+    bool comment_paren, string_paren, qsym_paren, string_semicolon, escaped_quote;
 };
 static Ref R;
 
-// allocation model: interpPipe's line buffer is 16 bytes, doubled by realloc; the frame buffer is malloc(i+2)
+// allocation model: interpPipe's line buffer is 16 bytes, doubled by realloc; the frame buffer is malloc(i+2).
+// Fixed objects of exactly the requested sizes, so that CBMC's bounds checks are the buffer-overflow checks.
 static char buf16[16];
 static char buf32[32];
 static char out_buf[NBYTES + 2];
-static int n_malloc;
-static int n_reads;
+static bool line_given;
 static unsigned out_cap;
 static bool out_live;
 
 extern "C" void * stub_malloc(size_t n) {
-    if (n_malloc++ == 0) {
+    if (!line_given) {
+        line_given = true;
         VASSERT(n == 16, "bound: initial line buffer is 16 bytes");
         return buf16;
     }
@@ -60,7 +72,7 @@ extern "C" void * stub_malloc(size_t n) {
     return out_buf;
 }
 extern "C" void * stub_realloc(void * p, size_t n) {
-#ifdef NO_REALLOC
+#ifndef GROW
     VASSERT(false, "bound: the line buffer is never grown for inputs shorter than 15 bytes");
     return p;
 #else
@@ -79,14 +91,12 @@ extern "C" ssize_t stub_read(int fd, void * p, size_t cnt) {
     char * d = (char *)p;
     d[cnt - 1] = 0;                 // the whole range offered to read() must be inside the line buffer (CBMC bounds check)
     int rem = in_len - in_pos;
-    if (rem <= 0) return 0;         // EOF
+    if (rem <= 0) { eof_seen = true; return 0; }
     if (in_pos > 0) cut_mask |= 1u << in_pos;
-    unsigned n = nondet_u8();
-    VASSUME(n >= 1 && n <= (unsigned)rem && n <= cnt);
-#ifdef MAXCHUNKS
-    // bound on the number of read() calls that return data: the last permitted one delivers all the rest
-    if (++n_reads >= MAXCHUNKS) VASSUME(n == (unsigned)rem);
-#endif
+    unsigned n;
+    if (policy == BYTEWISE) n = 1;
+    else if (policy == ONESHOT) { n = (unsigned)rem; VASSUME(n <= cnt); }
+    else { n = nondet_u8(); VASSUME(n >= 1 && n <= (unsigned)rem && n <= cnt); }
     for (unsigned j = 0; j < NBYTES; j++) if (j < n) d[j] = (char)input[in_pos + j];
     in_pos += (int)n;
     return (ssize_t)n;
@@ -96,33 +106,52 @@ extern "C" void stub_ctx_ctor(Smt2newContext * c, char * s) { c->ib = s; c->root
 
 extern "C" int stub_yyparse(Smt2newContext * c) {
     char * s = c->ib;
-    VASSERT(s == out_buf && out_live, "the parser is handed the freshly allocated frame buffer");
     if (cur->dead) return 1;
+    if (s != out_buf) {
+        // not a frame: the reader shows the parser what is left in its line buffer at EOF, so that leftover tokens
+        // get the parser's diagnostic; blanks and comments alone are an empty script
+        VASSERT(eof_seen && !cur->tail_parsed, "only at EOF, and only once, is the parser handed something that is not a frame");
+        cur->tail_parsed = true;
+        unsigned L = LINECAP;
+        for (unsigned j = 0; j < NBYTES + 1; j++) {
+            unsigned char ch = (unsigned char)s[j];
+            if (ch == 0) { L = j; break; }
+            VASSERT(R.tail_s + (int)j < in_len && ch == input[R.tail_s + j], "A2: the text parsed at EOF is the input after the last complete frame");
+        }
+        VASSERT((int)L == in_len - R.tail_s, "A2: the text parsed at EOF is all of the input after the last complete frame");
+        return R.tail_token ? 1 : 0;
+    }
+    VASSERT(out_live, "the parser is handed the freshly allocated frame buffer");
     int k = cur->n;
     VASSERT(k < MAXF, "no more frames than pairs of bytes");
     if (k >= MAXF) return 1;
-    unsigned L = 0;
-    while (L < NBYTES + 1 && L < out_cap && s[L] != 0) L++;
+    // one pass over the frame text: find its end, and record / compare each byte on the way
+    unsigned L = NBYTES + 1;
+    for (unsigned j = 0; j < NBYTES + 1; j++) {
+        if (j >= out_cap) break;
+        unsigned char ch = (unsigned char)s[j];
+        if (ch == 0) { L = j; break; }
+        if (j >= NBYTES) break;
+        if (mode == LOG) cur->fr[k][j] = ch;
+        else if (mode == CMPLOG) VASSERT(ch == logs[0].fr[k][j], "A1: frame contents agree");
+        else VASSERT(k < R.n && R.s[k] + (int)j <= R.e[k] && ch == input[R.s[k] + j], "A2: frame bytes are the input bytes from the end of the previous frame to the closing parenthesis");
+    }
     VASSERT(L < out_cap && L <= NBYTES, "frame text is NUL-terminated inside its allocation");
     if (mode == LOG) {
-        for (unsigned j = 0; j < NBYTES; j++) cur->fr[k][j] = j < L ? (unsigned char)s[j] : 0;
         cur->len[k] = (int)L;
     } else if (mode == CMPLOG) {
         VASSERT(k < logs[0].n, "A1: the second chunking frames nothing that the first did not");
         VASSERT((int)L == logs[0].len[k], "A1: frame lengths agree");
-        for (unsigned j = 0; j < NBYTES; j++) if (j < L) VASSERT((unsigned char)s[j] == logs[0].fr[k][j], "A1: frame contents agree");
     } else {
         VASSERT(k < R.n, "A2: every frame handed to the parser is a top-level s-expression of the reference scanner");
         VASSERT((int)L == R.e[k] - R.s[k] + 1, "A2: frame length is that of the reference frame");
-        for (unsigned j = 0; j < NBYTES; j++) if (j < L && R.s[k] + (int)j < NBYTES)
-            VASSERT((unsigned char)s[j] == input[R.s[k] + j], "A2: frame bytes are the input bytes from the end of the previous frame to the closing parenthesis");
     }
     cur->n = k + 1;
     return parse_fail[k] ? 1 : 0;
 }
 
 extern "C" void stub_execute(Interpret * self, const ASTNode *) {
-    if (cur->dead) return;
+    if (cur->dead || cur->tail_parsed) return;
     if (cur->n - 1 == exit_at) { self->f_exit = true; cur->dead = true; }
 }
 
@@ -134,63 +163,16 @@ extern "C" void stub_notify(Interpret *, bool error, const char * fmt, ...) {
     }
 }
 
-static void symbolic_input() {
-    in_len = nondet_u8();
-    VASSUME(in_len >= 0 && in_len <= NBYTES);
-    for (int i = 0; i < NBYTES; i++) {
-        unsigned char c = nondet_u8();
-        VASSUME(c == '(' || c == ')' || c == ';' || c == '"' || c == '|' || c == '\n' || c == 'a' || c == ' ');
-        input[i] = c;
-    }
-    for (int k = 0; k <= MAXF; k++) parse_fail[k] = nondet_bool();
-    exit_at = nondet_u8();
-    VASSUME(exit_at >= 0 && exit_at <= MAXF);
-#ifdef NO_EXIT
-    VASSUME(exit_at == MAXF);
-#endif
-}
-
-// raw, correctly typed storage for the interpreter object (no constructor runs): a typed object keeps CBMC field-sensitive
-union RawInterpret { Interpret obj; RawInterpret() {} ~RawInterpret() {} };
-static RawInterpret storage0, storage1;
-
-static void run_pipe(int which) {
-    cur = &logs[which];
-    cur->n = 0; cur->err = false; cur->dead = false;
-    in_pos = 0; n_malloc = 0; n_reads = 0; out_live = false; out_cap = 0; cut_mask = 0;
-    Interpret * I = which == 0 ? &storage0.obj : &storage1.obj;
-    I->f_exit = false;              // the only field interpPipe itself reads
-    int rv = I->interpPipe();
-    VASSERT(rv == 0, "interpPipe returns 0");
-    VASSERT(in_pos == in_len || cur->dead, "the reader consumes its input up to EOF unless it stopped on exit/unbalanced");
-}
-
-// ---------------------------------------------------------------- A1: chunking independence
-extern "C" void h_chunking() {
-    symbolic_input();
-    mode = LOG;
-    run_pipe(0);
-    uint32_t cuts0 = cut_mask;
-    mode = CMPLOG;
-    run_pipe(1);
-    uint32_t cuts1 = cut_mask;
-    Log & a = logs[0]; Log & b = logs[1];
-    VASSERT(a.n == b.n, "A1: both chunkings hand the same number of frames to the parser");
-    VASSERT(a.err == b.err, "A1: both chunkings report an error or neither does");
-    VWITNESS("two-runs-done");
-    if (cuts0 != cuts1 && a.n >= 1) { VWITNESS("different-chunkings-with-a-frame"); }
-    if (a.n >= 2 && cuts0 == 0 && cuts1 != 0) { VWITNESS("one-shot-vs-split-two-frames"); }
-}
-
-// ---------------------------------------------------------------- A2: reference scanner (from smt2newlexer.ll)
-// INITIAL:  \;.*  comment (up to, not including, the newline) | [ \t\n]+ blanks | ( | ) | " -> STR | '|' -> PSYM | symbol chars
-// STR:      everything up to the next " (the alphabet has no backslash, so no \" escape; "" is two adjacent literals)
-// PSYM:     everything up to the next |
+// ---------------------------------------------------------------- reference scanner (from smt2newlexer.ll)
+// INITIAL:  \;.*  comment (up to, not including, the newline) | [ \t\n]+ blanks | ( | ) | " -> STR | '|' -> PSYM | other: token text
+// STR:      \" and \\ are two-character escapes; any other single character (a lone backslash is echoed and skipped by
+//           flex's default rule) belongs to the literal; " ends it
+// PSYM:     everything up to the next | (a backslash is a lexical error raised by the lexer when the frame is parsed)
 static bool is_paren(unsigned char c) { return c == '(' || c == ')'; }
 
 static void ref_scan() {
-    R.n = 0; R.unbalanced = false; R.tail_token = false;
-    R.comment_paren = R.string_paren = R.qsym_paren = R.string_semicolon = false;
+    R.n = 0; R.unbalanced = false; R.tail_token = false; R.string_backslash = false;
+    R.comment_paren = R.string_paren = R.qsym_paren = R.string_semicolon = R.escaped_quote = false;
     int pos = 0, depth = 0, start = 0;
     bool token = false;
     while (pos < in_len) {
@@ -201,7 +183,15 @@ static void ref_scan() {
         } else if (c == ' ' || c == '\n') {
         } else if (c == '"') {
             token = true;
-            while (pos < in_len && input[pos] != '"') { if (is_paren(input[pos]) && depth > 0) R.string_paren = true; if (input[pos] == ';') R.string_semicolon = true; pos++; }
+            while (pos < in_len && input[pos] != '"') {
+                if (is_paren(input[pos]) && depth > 0) R.string_paren = true;
+                if (input[pos] == ';') R.string_semicolon = true;
+                if (input[pos] == '\\') {
+                    R.string_backslash = true;
+                    if (pos + 1 < in_len && (input[pos + 1] == '"' || input[pos + 1] == '\\')) { if (input[pos + 1] == '"') R.escaped_quote = true; pos++; }
+                }
+                pos++;
+            }
             pos++;                  // closing quote (or past the end: unterminated, stays a tail token)
         } else if (c == '|') {
             token = true;
@@ -217,20 +207,74 @@ static void ref_scan() {
                 start = pos; token = false;
             } else if (depth < 0) { R.unbalanced = true; break; }
         } else {
-            token = true;           // 'a': a simple symbol character
+            token = true;           // 'a' (a simple symbol character) or a backslash outside literals (lexical error of that frame)
         }
     }
+    R.tail_s = start;
     R.tail_token = !R.unbalanced && token;
 }
 
-extern "C" void h_reference() {
-    symbolic_input();
+static void symbolic_input() {
+    in_len = nondet_u8();
+    VASSUME(in_len >= 0 && in_len <= NBYTES);
+    for (int i = 0; i < NBYTES; i++) {
+        unsigned char c = nondet_u8();
+#ifdef SMALL_ALPHABET
+        VASSUME(c == '(' || c == ')' || c == '"' || c == 'a');
+#else
+        VASSUME(c == '(' || c == ')' || c == ';' || c == '"' || c == '|' || c == '\n' || c == 'a' || c == ' ' || c == '\\');
+#endif
+        input[i] = c;
+    }
+    for (int k = 0; k <= MAXF; k++) parse_fail[k] = nondet_bool();
+    exit_at = nondet_u8();
+    VASSUME(exit_at >= 0 && exit_at <= MAXF);
     ref_scan();
     VASSERT(R.n <= MAXF, "reference: frame bound");
-#ifdef KF_C20_TRAILING_DROPPED
+#ifdef KF_C20_STRING_ESCAPE
+    // known finding: the pipe reader does not know the lexer's \" and \\ escapes inside string literals
+    VASSUME(!R.string_backslash);
+#endif
+#ifdef KF_C20_EOF_TAIL
     // known finding: text after the last complete top-level s-expression is dropped without any diagnostic at EOF
     VASSUME(!R.tail_token);
 #endif
+}
+
+// raw, correctly typed storage for the interpreter object (no constructor runs)
+union RawInterpret { Interpret obj; RawInterpret() {} ~RawInterpret() {} };
+static RawInterpret storage0, storage1;
+
+static void run_pipe(int which) {
+    cur = &logs[which];
+    cur->n = 0; cur->err = false; cur->dead = false; cur->tail_parsed = false;
+    in_pos = 0; eof_seen = false; line_given = false; out_live = false; out_cap = 0; cut_mask = 0;
+    Interpret * I = which == 0 ? &storage0.obj : &storage1.obj;
+    I->f_exit = false;              // the only field interpPipe itself reads
+    int rv = I->interpPipe();
+    VASSERT(rv == 0, "interpPipe returns 0");
+    VASSERT(in_pos == in_len || cur->dead, "the reader consumes its input up to EOF unless it stopped on exit/unbalanced");
+}
+
+// ---------------------------------------------------------------- A1: chunking independence
+extern "C" void h_chunking() {
+    symbolic_input();
+    policy = ANY;
+    mode = LOG;
+    run_pipe(0);
+    uint32_t cuts0 = cut_mask;
+    mode = CMPLOG;
+    run_pipe(1);
+    uint32_t cuts1 = cut_mask;
+    Log & a = logs[0]; Log & b = logs[1];
+    VASSERT(a.n == b.n, "A1: both chunkings hand the same number of frames to the parser");
+    VASSERT(a.err == b.err, "A1: both chunkings report an error or neither does");
+    VWITNESS("two-runs-done");
+    if (cuts0 != cuts1 && a.n >= 1) { VWITNESS("different-chunkings-with-a-frame"); }
+}
+
+// ---------------------------------------------------------------- A2: frames = top-level s-expressions of the reference
+static void reference_run() {
     mode = CMPREF;
     run_pipe(0);
     Log & a = logs[0];
@@ -250,15 +294,50 @@ extern "C" void h_reference() {
         VASSERT(a.err == eerr, "A2: an error is reported exactly for a rejected frame or an unbalanced ')'");
     }
     VWITNESS("reference-done");
-    if (a.n >= 1 && R.comment_paren) { VWITNESS("comment-with-paren-inside-a-frame"); }
-    if (a.n >= 1 && R.string_paren) { VWITNESS("string-literal-contains-paren"); }
-    if (a.n >= 1 && R.qsym_paren) { VWITNESS("quoted-symbol-contains-paren"); }
-    if (a.n >= 1 && R.string_semicolon) { VWITNESS("string-literal-contains-semicolon"); }
-    if (a.n >= 2) { VWITNESS("two-frames"); }
-    if (R.unbalanced && a.n >= 1) { VWITNESS("unbalanced-after-a-frame"); }
-    for (int k = 0; k < MAXF; k++) if (k < a.n && k < R.n) {
+}
+static bool some_frame_split() {
+    for (int k = 0; k < MAXF; k++) if (k < logs[0].n && k < R.n) {
         uint32_t inside = 0;
         for (int p = 1; p < NBYTES; p++) if (p > R.s[k] && p <= R.e[k]) inside |= 1u << p;
-        if (cut_mask & inside) { VWITNESS("frame-split-across-reads"); }
+        if (cut_mask & inside) return true;
     }
+    return false;
+}
+
+extern "C" void h_reference() {
+    symbolic_input();
+    policy = ANY;
+    reference_run();
+    Log & a = logs[0];
+    if (a.n >= 2) { VWITNESS("two-frames"); }
+    if (some_frame_split()) { VWITNESS("frame-split-across-reads"); }
+#if NBYTES >= 5
+    if (a.n >= 1 && R.string_paren) { VWITNESS("string-literal-contains-paren"); }
+#endif
+}
+// every read() returns one byte: every state of the scanner is carried across a read boundary at every position
+extern "C" void h_reference_bytewise() {
+    symbolic_input();
+    policy = BYTEWISE;
+    reference_run();
+    Log & a = logs[0];
+    if (a.n >= 1 && R.string_paren) { VWITNESS("string-literal-contains-paren"); }
+    if (a.n >= 2 && some_frame_split()) { VWITNESS("two-frames-split-across-reads"); }
+#if NBYTES >= 6
+    if (a.n >= 1 && R.string_paren && R.string_semicolon) { VWITNESS("string-literal-contains-paren-and-semicolon"); }
+    if (a.n >= 1 && R.escaped_quote) { VWITNESS("frame-with-escaped-quote"); }
+#endif
+}
+// the whole input arrives in one read(): all frames are cut out of one buffer
+extern "C" void h_reference_oneshot() {
+    symbolic_input();
+    policy = ONESHOT;
+    reference_run();
+    Log & a = logs[0];
+    if (a.n >= 1 && R.comment_paren) { VWITNESS("comment-with-paren-inside-a-frame"); }
+    if (a.n >= 1 && R.qsym_paren) { VWITNESS("quoted-symbol-contains-paren"); }
+    if (R.unbalanced && a.n >= 1) { VWITNESS("unbalanced-after-a-frame"); }
+#if NBYTES >= 6
+    if (a.n >= 3) { VWITNESS("three-frames"); }
+#endif
 }
